@@ -190,7 +190,11 @@ func H_C01_ldflags_X() {
 	sharedCache.ListedPackages.set(dep.ImportPath, dep)
 	tf := &transformer{curPkg: mainPkg}
 	name := identString("var", 1+symx.Choose(tier(1, 2)))
-	val := shortText("val", symx.Choose(tier(2, 3)))
+	// the injected value is arbitrary printable text: it may itself contain '=' or '.'
+	val := symx.String("val", symx.Choose(tier(3, 4)))
+	for i := 0; i < len(val); i++ {
+		symx.Assume(val[i] > ' ' && val[i] < 0x7f)
+	}
 	target := symx.Choose(3)
 	pkgPath := []string{"main", dep.ImportPath, "not/in/build"}[target]
 	x := pkgPath + "." + name + "=" + val
